@@ -134,7 +134,7 @@ def stream_fmt(ctx, athlib):
     lines = []; lines_js = []; hint_diff = 0
     for x, p in reqs:
         whole, frac, exact = TC.residue_texts(x)
-        t0 = '%.9f' % frac
+        t0 = '%.9f' % (frac + 0.0)
         lines.append(TC.line_fmt(whole, t0, p))
         r = resid[x]
         tj = r[1][1] if r[0] == 'json' else t0
